@@ -421,6 +421,10 @@ def run_in_fresh_interpreter(pid: str, replay_path: Path, hashseed: str = "0", t
     return p.returncode, last, p.stdout[-3000:] + p.stderr[-3000:]
 
 
+def _exec_candidate(cand):
+    return _exec_one(_CHECK, cand)
+
+
 def minimise(check: Check, scn: dict, signature: str, budget_s: float) -> tuple[dict, int]:
     """Greedy shrinking: accept a candidate iff the same signature reproduces."""
     t0 = time.time()
@@ -434,7 +438,9 @@ def minimise(check: Check, scn: dict, signature: str, budget_s: float) -> tuple[
                 break
             tried += 1
             try:
-                out = _exec_one(check, cand)
+                # each candidate runs in its own forked child too: what one candidate leaves behind in the process
+                # must not decide whether the next one "reproduces"
+                out = _isolated(_exec_candidate, cand)
             except BaseException:  # noqa: BLE001
                 continue
             if any(sig(check.pid, v) == signature for v in out["violations"]):
